@@ -99,11 +99,10 @@ def cloned_class_dict(w, real):
                 if not (k.startswith("__") and k.endswith("__")):
                     d.setdefault(k, _KEEP)
                 continue
-            if not isinstance(f, types.FunctionType) or f.__module__ not in w.ns or \
-                    f.__globals__ is not w.mods[f.__module__].__dict__:
+            c = w._clone(f) if isinstance(f, types.FunctionType) else f
+            if c is f:  # not a function of a world module (decided by the module its globals belong to)
                 d.setdefault(k, _KEEP)
                 continue
-            c = w._clone(f)
             if kind == "fn":
                 d[k] = c
             elif kind == "cprop":
